@@ -159,7 +159,16 @@ pub fn check_bytes(bytes: &[u8], st: &mut Stats, decoded: &dyn Fn() -> String) -
             }
             Some(a.placement.order())
         }
-        R2::DontCare { .. } => None,
+        R2::DontCare { .. } => {
+            // the statement's two exclusions hold here as well (FA20)
+            let mm = names.iter().filter(|n| **n == "MemoryModel").count();
+            let first_fn = names.iter().position(|n| *n == "Function").unwrap_or(names.len());
+            if mm > 1 || names[first_fn..].iter().any(|n| *n == "Line" || *n == "NoLine") {
+                st.count("excluded_undecidable_without_placement");
+                return Ok(());
+            }
+            None
+        }
         R2::Reject { .. } => {
             // Whether this stream may be accepted is C05's subject; but the loader did accept
             // it, so the part of the statement that needs no placement model still binds:
